@@ -103,3 +103,9 @@ claim("C14",
   "The wrapped handler must run exactly once iff the request is routed and valid; otherwise the client gets 404 'not found' / 400 'bad request' or exactly one error-callback call and the handler never runs. Non-strict, or strict with a response that passes ValidateResponse: the client sees exactly the status and body (and the pre-commit headers) of the reference run. Strict with an invalid response: 500 'server error' or exactly one callback call, and no handler chunk reaches the client. No script makes the middleware panic.",
   "Trusted: httptest.ResponseRecorder as the client-side writer (its content sniffing is excluded from header comparison), ValidateResponse for classifying the handler output (C08). Headers set after WriteHeader in strict mode are not asserted (the statement speaks of status and body).",
   "DESIGN.md#c14")
+
+claim("C18",
+  "property-based testing with a generate-then-validate (round-trip) oracle: Go types assembled at run time with reflect from rapid-generated descriptors plus hand-declared recursive and embeddable types, values drawn reflectively (integer extremes, nil / non-nil pointers, non-nil slices and maps), encoded with encoding/json; the schema generated for the type is loaded together with its component map and must accept the encoding",
+  "For every generated (type, value, option set): schema generation must succeed and terminate, the generated references must resolve within the returned component map (the schemas are loaded as a document), and the standard JSON encoding of the value must validate against the generated schema, as a float64 tree and as a json.Number tree.",
+  "Trusted: encoding/json as the definition of 'the JSON encoding', reflect.StructOf for building struct types (embedding uses hand-declared named types). Two open findings: nil pointers to types cut into component references; anonymous structs under CreateComponentSchemas (excluded by construction).",
+  "DESIGN.md#c18")
